@@ -228,6 +228,27 @@ theorem C34_same_decision (v : String) (ready : Bool) (membersUp : Nat) (planOk 
   · simp [doorResponse, IQE.Gen.FrontDoor.parse_mode, IQE.Gen.FrontDoor.parse_value]
   · simp [doorResponse, IQE.Gen.FrontDoor.parse_value]
 
+/-! ## bridge: the constants and the vocabulary the driver runs ARE the generated ones -/
+
+theorem C34_bridge_constants :
+    IQE.Gen.FrontDoor.MAX_ENCODE_ROWS.toNat = maxEncodeRows ∧ IQE.Gen.FrontDoor.MAX_TICKET_BYTES.toNat = maxTicketBytes ∧
+    0 ≤ IQE.Gen.FrontDoor.MAX_ENCODE_ROWS ∧ 0 ≤ IQE.Gen.FrontDoor.MAX_TICKET_BYTES := by decide
+
+/-- `parse_mode`'s value table (Flight), for EVERY string -/
+theorem C34_flight_mode_table (v : String) : IQE.Gen.FrontDoor.parse_mode v =
+    if v = "auto" then .ok .Auto
+    else if v = "1" ∨ v = "true" ∨ v = "yes" ∨ v = "force" then .ok .Force
+    else if v = "0" ∨ v = "false" ∨ v = "no" ∨ v = "local" ∨ v = "off" then .ok .Off else .error "other" := by
+  unfold IQE.Gen.FrontDoor.parse_mode
+  split <;> simp_all
+
+theorem C34_bridge_flight_vocabulary (v : String) :
+    parseModeFlight v = (match IQE.Gen.FrontDoor.parse_mode v with | .ok m => some (modeOfGen m) | .error _ => none) := by
+  rw [C34_flight_mode_table]
+  unfold parseModeFlight
+  by_cases h1 : v = "auto" <;> by_cases h2 : (v = "1" ∨ v = "true" ∨ v = "yes" ∨ v = "force") <;>
+    by_cases h3 : (v = "0" ∨ v = "false" ∨ v = "no" ∨ v = "local" ∨ v = "off") <;> simp [h1, h2, h3, modeOfGen]
+
 /-! ## non-vacuity -/
 example : slicesOf 4096 10000 = [(0, 4096), (4096, 4096), (8192, 1808)] ∧ slicesOf 4096 4096 = [(0, 4096)] ∧
           slicesOf 4096 4097 = [(0, 4096), (4096, 1)] ∧ slicesOf 4096 0 = [(0, 0)] := by decide
